@@ -6,7 +6,9 @@
    request: [Seen j f] = the request modifier saw request j with fields f
    (j = 0 is the CONNECT), [Unseen j] = it never did.  [decrypted l t] holds
    for a TLS tunnel behind a plain or traffic shaped listener and for a
-   transparent TLS listener. *)
+   transparent TLS listener, bare or wrapped by a traffic shaping listener.
+   [f_tls f] = req.TLS is non-nil, complete, and equal (version, cipher
+   suite, server name) to what the client negotiated on that connection. *)
 From Coq Require Import List Bool Arith.
 From Martian.C05 Require Import Model Proofs.
 Import ListNotations.
@@ -61,7 +63,7 @@ Print Assumptions C05_hijack_gets_decrypted.
    session, no TLS state, cleartext origin, hijacker gets the raw connection
    (true of the pinned commit as well: both variants) *)
 Theorem C05_plain_inside_tunnel_insecure : forall fx l reqs j f,
-  l <> LTls -> 1 <= j -> In (Seen j f) (run fx l TunPlain reqs) ->
+  1 <= j -> In (Seen j f) (run fx l TunPlain reqs) ->
   f_scheme f = Http /\ f_secure f = false /\ f_tls f = false /\ f_sess f = 0 /\
   (f_hk f = None -> f_host f <> HEmpty -> f_up f = UpPlain /\ f_status f = Some 200) /\
   (forall k, f_hk f = Some k -> is_tls k = false /\ f_marker f = Some true).
